@@ -11,6 +11,7 @@ import DropletsVerif.Driver.C14
 import DropletsVerif.Driver.C08
 import DropletsVerif.Driver.C20
 import DropletsVerif.Driver.C03
+import DropletsVerif.Driver.C13
 
 open DV.Drv
 
@@ -27,6 +28,7 @@ def dispatch (line : String) : String :=
   | "c08" :: args => handleC08 args
   | "c20" :: args => handleC20 args
   | "c03" :: args => handleC03 args
+  | "c13" :: args => handleC13 args
   | "c15" :: args => handleC15 args
   | _ => "bad-op"
 
